@@ -244,6 +244,14 @@ def t2(ctx, res):
     # properties store exists
     res.check(any(isinstance(st, ast.Assign) and any(norm(t) == "cls.properties" for t in st.targets) for st in new.body),
               new, "cls.properties = {...}", reason="properties are stored on the class")
+    # no constructor rebinds a keyword parameter before storing it
+    for f in [own_init(c) for c in classes] + [new]:
+        names = {p.name for p in f.params[1:]}
+        for n in walk_own(f.body):
+            if isinstance(n, ast.Name) and isinstance(n.ctx, (ast.Store, ast.Del)) and n.id in names:
+                res.violation(f, f"{n.id} is reassigned inside {f.short}",
+                              reason=f"the stored value of `{n.id}` is no longer the caller's argument (or the inherited attribute): "
+                                     "a keyword is altered between the call and the attribute generic readers see")
     res.floor("constructor_parameters", n_params, 75)
 
 
@@ -343,10 +351,58 @@ def t3(ctx, res):
                 return True
         return False
 
+    from .paths import enumerate_paths, isinstance_atom
+
+    def nonparsing_paths(f, seen=None):
+        """Paths of f that return without going through parse_element and are
+        not excused by a 'the keyword value is a boolean' test."""
+        seen = seen or set()
+        if f in seen:
+            return []
+        seen = seen | {f}
+        site_idx = {}
+        for s in inf.sites(f)[0]:
+            site_idx.setdefault(id(s.node), []).append(s)
+        bad = []
+        for p in enumerate_paths(f.body):
+            if p.exit == "raise":
+                continue
+            nodes = []
+            for st in p.stmts:
+                if isinstance(st, ast.AST):
+                    nodes.append(st)
+            reached = False
+            for st in nodes:
+                for x in ast.walk(st):
+                    for s in site_idx.get(id(x), []):
+                        if s.callee in pe_targets:
+                            reached = True
+                        elif s.kind == "call" and s.callee.module is f.module and s.callee.name.startswith("_parse") \
+                                and not nonparsing_paths(s.callee, seen):
+                            reached = True
+            if reached:
+                continue
+            excused = False
+            for c in p.conds:
+                if isinstance(c[0], str):
+                    continue
+                ia = isinstance_atom(c[0], c[1])
+                if ia and ia[2] and ia[1] == ["bool"]:
+                    excused = True
+            if not excused:
+                bad.append(" and ".join(("" if pol else "not ") + norm(t) for t, pol in p.conds if not isinstance(t, str)) or "<unconditional>")
+        return bad
+
     for k in sorted(pos):
         fn = rows.get(k)
         res.check(fn is not None and reaches_parse(fn), pe, f"schema[{k!r}] = <parser>(schema, state)",
                   detail={"parser": fn}, reason="the keyword's value is replaced by recursively parsed element(s)")
+        if fn is not None and ctx.prog.find_funcs(fn):
+            bad = nonparsing_paths(ctx.prog.find_funcs(fn)[0])
+            res.check(not bad, ctx.prog.find_funcs(fn)[0], f"every path of {fn} parses the sub-schema",
+                      detail={"paths_not_reaching_parse_element": bad},
+                      reason="no path returns a value for this position without sending the sub-schema through "
+                             "parse_element (a boolean additional* value excepted)")
     comp = ctx.func("_parse_composition")
     ck = str_elts(module_const(ctx, "statham/schema/constants.py", "COMPOSITION_KEYWORDS"))
     if ck is None:
